@@ -70,6 +70,19 @@ fn query_sm(sm: &SourceMap, sv: &SourceView) {
     let mut it = sm.tokens();
     let _ = it.seek(0, 0);
     let _ = it.next();
+    // a SESSION on one iterator: seeks in any order (behind the last token, before the first, exact, inexact, repeated),
+    // with and without next() / size_hint() / nth() in between -- the cursor is state that survives every call
+    let sess: Vec<(u32, u32)> = poss.iter().copied().take(24).chain([(u32::MAX, u32::MAX), (u32::MAX, u32::MAX), (0, 0), (u32::MAX, 0), (0, u32::MAX)]).collect();
+    for pass in 0..3 {
+        let mut it = sm.tokens();
+        for (k, (l, c)) in sess.iter().enumerate() {
+            let (l, c) = if pass == 1 { sess[sess.len() - 1 - k] } else { (*l, *c) };
+            let _ = it.seek(l, c);
+            if pass == 2 || k % 3 == 0 { let _ = (it.size_hint(), it.next().map(|t| t.get_dst())); }
+            if k % 7 == 6 { let _ = it.nth(k % 4).is_some(); }
+        }
+        let _ = it.count();
+    }
     let _ = format!("{:?}", sm).len();
 }
 
